@@ -286,6 +286,40 @@ pub proof fn lemma_path_rest_step(pre: nat, b: u8, bm: u8)
         bm == 0x80 ==> path_rest(pre, b, bm) / 2 == pre,
         pre >= 1 ==> path_rest(pre, b, bm) >= 2,
 {
+    let x = b as int;
+    // one mask at a time: every product has a literal factor and every division a literal divisor
+    if bm == 1 {
+        assert(path_rest(pre, b, 1) == pre * 256 + x);
+        assert(path_rest(pre, b, 2) == pre * 128 + x / 2);
+    } else if bm == 2 {
+        assert(path_rest(pre, b, 2) == pre * 128 + x / 2);
+        assert(path_rest(pre, b, 4) == pre * 64 + x / 4);
+        assert((x / 2) / 2 == x / 4);
+    } else if bm == 4 {
+        assert(path_rest(pre, b, 4) == pre * 64 + x / 4);
+        assert(path_rest(pre, b, 8) == pre * 32 + x / 8);
+        assert((x / 4) / 2 == x / 8);
+    } else if bm == 8 {
+        assert(path_rest(pre, b, 8) == pre * 32 + x / 8);
+        assert(path_rest(pre, b, 16) == pre * 16 + x / 16);
+        assert((x / 8) / 2 == x / 16);
+    } else if bm == 16 {
+        assert(path_rest(pre, b, 16) == pre * 16 + x / 16);
+        assert(path_rest(pre, b, 32) == pre * 8 + x / 32);
+        assert((x / 16) / 2 == x / 32);
+    } else if bm == 32 {
+        assert(path_rest(pre, b, 32) == pre * 8 + x / 32);
+        assert(path_rest(pre, b, 64) == pre * 4 + x / 64);
+        assert((x / 32) / 2 == x / 64);
+    } else if bm == 64 {
+        assert(path_rest(pre, b, 64) == pre * 4 + x / 64);
+        assert(path_rest(pre, b, 128) == pre * 2 + x / 128);
+        assert((x / 64) / 2 == x / 128);
+    } else {
+        assert(bm == 128);
+        assert(path_rest(pre, b, 128) == pre * 2 + x / 128);
+        assert(x / 128 <= 1);
+    }
 }
 
 pub proof fn lemma_path_rest_top(b: u8, bm: u8, last: u8)
